@@ -193,6 +193,25 @@ type blobCase struct {
 	skipped  int
 	accepted int
 	rejected int
+	base     []byte   // the unmodified blob of this run (the first one the destination received)
+	recent   [][]byte // the last blobs tried before the current one: a reused destination carries their residue
+}
+
+// record stores the literal inputs a replay needs: blob bytes cannot be regenerated in another process (they depend on
+// the process-random string hash seed), and with a reused destination the outcome also depends on what that
+// destination received before.
+func (bc *blobCase) record(blob []byte) {
+	in := bc.r.Res.Inputs
+	in["blob"] = base64.StdEncoding.EncodeToString(blob)
+	if bc.dst == nil {
+		return
+	}
+	if bc.base != nil {
+		in["baseblob"] = base64.StdEncoding.EncodeToString(bc.base)
+	}
+	for i, p := range bc.recent {
+		in[fmt.Sprintf("prev%d", i)] = base64.StdEncoding.EncodeToString(p)
+	}
 }
 
 // try feeds one mutated blob to Deserialize (fresh or reused destination) and traverses any result.
@@ -232,7 +251,7 @@ func (bc *blobCase) try(blob []byte, kind string) bool {
 	case <-time.After(20 * time.Second):
 		if deserializeDeadlocks(r, blob) {
 			r.violate("deserialize-hang", "deadlock", fmt.Sprintf("Deserialize never returns on a %s blob (%d bytes): every goroutine of the call is blocked for good", kind, len(blob)))
-			r.Res.Inputs["blob"] = base64.StdEncoding.EncodeToString(blob)
+			bc.record(blob)
 			return false
 		}
 		<-doneCh // slow, not stuck
@@ -241,19 +260,29 @@ func (bc *blobCase) try(blob []byte, kind string) bool {
 		var wp *WalkPanic
 		if errors.As(err, &wp) {
 			r.violate("deserialize-panic", panicSig(wp), fmt.Sprintf("Deserialize panicked on a %s blob (%d bytes, dst reused %v): %v", kind, len(blob), bc.dst != nil, wp))
-			r.Res.Inputs["blob"] = base64.StdEncoding.EncodeToString(blob)
+			bc.record(blob)
 			return false
+		}
+	}
+	remember := func() {
+		if bc.dst != nil {
+			bc.recent = append(bc.recent, append([]byte(nil), blob...))
+			if len(bc.recent) > 3 {
+				bc.recent = bc.recent[1:]
+			}
 		}
 	}
 	if derr != nil || out == nil {
 		bc.rejected++
+		remember()
 		return true
 	}
 	bc.accepted++
-	if !traverseAll(r, out, fmt.Sprintf("result of Deserialize on a %s blob (%d bytes)", kind, len(blob))) {
-		r.Res.Inputs["blob"] = base64.StdEncoding.EncodeToString(blob)
+	if !traverseAll(r, out, fmt.Sprintf("result of Deserialize on a %s blob (%d bytes, dst reused %v)", kind, len(blob), bc.dst != nil)) {
+		bc.record(blob)
 		return false
 	}
+	remember()
 	return true
 }
 
@@ -335,12 +364,23 @@ func RunFaultBlob(r *Run) {
 		r.stat("rejected_with_error", bc.rejected)
 	}()
 	if lit, ok := replayInputs["blob"]; ok {
-		// replay files carry the literal mutated blob (its bytes cannot be regenerated in another process)
+		// replay files carry the literal mutated blob (its bytes cannot be regenerated in another process) and, for a
+		// reused destination, the literal blobs that destination received before it
 		if raw, err := base64.StdEncoding.DecodeString(lit); err == nil {
+			for _, k := range []string{"baseblob", "prev0", "prev1", "prev2"} {
+				if p, ok := replayInputs[k]; ok && bc.dst != nil {
+					if pr, err := base64.StdEncoding.DecodeString(p); err == nil {
+						if !bc.try(pr, "replayed-predecessor") {
+							return
+						}
+					}
+				}
+			}
 			bc.try(raw, "replayed-literal")
 			return
 		}
 	}
+	bc.base = base
 	if !bc.try(base, "unmodified") {
 		return
 	}
